@@ -13,6 +13,8 @@ claimed = {
  "C04": "Theorems C04_no_panic and C04_matches_reference (encoder model = independent X.690 reference encoder, all values x all type descriptors) instantiated to the 195 schema types regenerated from /repo (C04_schema); encoder model tied to asn.BerMarshalWithParams by correspondence on schema, random reflect.StructOf and primitive types; reference applied to Go's own bytes",
  "C05": "Theorem C05_roundtrip: dec (enc v) = v for all type descriptors and all values whose exercised part lies in the decoder's language (unbounded depth/size); OID/open types are errors; schema regenerated from /repo; models tied to the real Marshal/Unmarshal by correspondence; round-trip monitor on the implementation; known finding C05/untagged-member proved as C05_untagged_refuted",
  "C16": "Theorem C16_total: for all byte strings and all type descriptors the decoder model returns value or error, never Panic (out-of-range access) or OutOfFuel (non-termination); error-class lemmas; decoder model tied to asn.UnmarshalWithParams on malformed/mutated/arbitrary inputs plus an exhaustive Go-side sweep of short inputs; known finding C16/wrong-type-accepted proved as C16_wrong_type_refuted",
+ "C07": "Theorems C07_reserve/refund/terminate/echo/unknown/frame and C07_sequence (running balance over any CCR sequence = fold of a one-number specification) on the model of pkg/abmf handleCCR; model tied to the real server (abmf.OpenServer, real Diameter/TLS connections, fake MongoDB) by request-sequence correspondence; the statement of C07 is also evaluated on the implementation's own answers and balances; known finding C07/int64-overflow proved as C07_refund_overflow_refuted",
+ "C08": "Theorems C08_answers (every stored unit-cost string), C08_agree, C08_debit, C08_reserve on the model of pkg/rf handleSUR/buildTaffif and the CHF's getUnitCost; tied to the real rating server over Diameter and to the real CHF (ChfUe.UnitCost after an update) on adversarial unit-cost strings; exact-pricing monitor on the implementation's own answers",
 }
 checks = []
 for pid, text in claimed.items():
